@@ -54,6 +54,13 @@ def interesting_prefixes(data, rnd, n_random):
             if prev is not None:
                 pts.add((prev + pos) // 2)
         prev = pos
+    # frame structure of protocol >= 4 pickles: a cut exactly between two frames ends the stream where the unpickler
+    # expects a new opcode (EOFError), a cut inside a frame header or body ends it mid-read (UnpicklingError)
+    for op, arg, pos in pickletools.genops(io.BytesIO(data)):
+        if op.name == "FRAME":
+            end = pos + 9 + int(arg)
+            for q in (pos - 1, pos, pos + 1, pos + 5, pos + 9, pos + 10, end - 1, end, end + 1):
+                pts.add(q)
     # boundaries between the four tuple members: positions where the stack depth is 1..4 at top level
     try:
         depth_marks = []
